@@ -116,7 +116,7 @@ func (m ImportMatcher) matchSpec(spec *ast.ImportSpec, d data.Data) (_ data.Data
 			Unnamed: true,
 		})
 
-		d = data.WithValue(d, importKey(m.Path), importData{
+		d = data.WithValue(d, m.key(), importData{
 			Name:       m.NameS,
 			MetavarKey: importMetavarKey(m.NameS),
 		})
@@ -126,7 +126,7 @@ func (m ImportMatcher) matchSpec(spec *ast.ImportSpec, d data.Data) (_ data.Data
 			Name:    m.NameS,
 		}), d, nodeRegion(spec))
 	} else {
-		d = data.WithValue(d, importKey(m.Path), importData{Name: spec.Name.Name})
+		d = data.WithValue(d, m.key(), importData{Name: spec.Name.Name})
 
 		// Both are named. Match as-is and also associate the package
 		// name with the import path so that we can delete it later.
@@ -141,7 +141,16 @@ type importMetavarKey string
 
 type importMetavarData struct{ Unnamed bool }
 
-type importKey string // import path
+// importKey identifies an import of the patch. A patch may list one path
+// several times under different names: each of them is an import of its own.
+type importKey struct {
+	Path string // import path
+	Name string // name in the patch, if any
+}
+
+func (m ImportMatcher) key() importKey {
+	return importKey{Path: m.Path, Name: m.NameS}
+}
 
 type importData struct {
 	Name string // package name of the import
@@ -165,14 +174,14 @@ func (c *matcherCompiler) compileImports(imps []*ast.ImportSpec) ImportsMatcher 
 
 // Match matches a block of imports in a file.
 func (m ImportsMatcher) Match(file *ast.File, d data.Data) (_ data.Data, ok bool) {
-	matchedImports := make([]string, 0, len(m.Imports))
+	matchedImports := make([]importKey, 0, len(m.Imports))
 	for _, m := range m.Imports {
 		d, ok = m.Match(file, d)
 		if !ok {
 			return d, false
 		}
 
-		matchedImports = append(matchedImports, m.Path)
+		matchedImports = append(matchedImports, m.key())
 	}
 
 	return data.WithValue(d, importsKey, importsData{
@@ -186,7 +195,7 @@ func (m ImportsMatcher) Match(file *ast.File, d data.Data) (_ data.Data, ok bool
 // each of the names is something the metavariable may stand for.
 func (m ImportsMatcher) matchAll(file *ast.File, d data.Data) []data.Data {
 	candidates := []data.Data{d}
-	matchedImports := make([]string, 0, len(m.Imports))
+	matchedImports := make([]importKey, 0, len(m.Imports))
 	for _, im := range m.Imports {
 		var next []data.Data
 		for _, d := range candidates {
@@ -210,7 +219,7 @@ func (m ImportsMatcher) matchAll(file *ast.File, d data.Data) []data.Data {
 			return nil
 		}
 		candidates = next
-		matchedImports = append(matchedImports, im.Path)
+		matchedImports = append(matchedImports, im.key())
 	}
 
 	for i, d := range candidates {
@@ -226,7 +235,7 @@ type _importsKey string
 var importsKey _importsKey
 
 type importsData struct {
-	MatchedImports []string // import paths
+	MatchedImports []importKey
 }
 
 // ImportReplacer replaces imports in a file.
@@ -331,9 +340,9 @@ type ImportsReplacer struct {
 	Imports []ImportReplacer
 	Fset    *token.FileSet
 
-	// Paths of the imports that the patch has on both sides, in the same
-	// form: context lines, which the change requires and keeps.
-	Kept map[string]bool
+	// Imports that the patch has on both sides, in the same form: context
+	// lines, which the change requires and keeps.
+	Kept map[importKey]bool
 }
 
 func (c *replacerCompiler) compileImports(imps []*ast.ImportSpec) ImportsReplacer {
@@ -377,8 +386,9 @@ func (r ImportsReplacer) Cleanup(d data.Data, f *ast.File, newNames []string) er
 	}
 
 	// Delete matched imports that are no longer used.
-	for _, imp := range impData.MatchedImports {
-		if r.Kept[imp] {
+	for _, key := range impData.MatchedImports {
+		imp := key.Path
+		if r.Kept[key] {
 			// The patch does not remove this import, it only requires
 			// it. Whether the file still uses it is not for us to
 			// guess from the last element of its path.
@@ -387,7 +397,7 @@ func (r ImportsReplacer) Cleanup(d data.Data, f *ast.File, newNames []string) er
 
 		var importName, pkgName string
 
-		if idata := new(importData); data.Lookup(d, importKey(imp), idata) {
+		if idata := new(importData); data.Lookup(d, key, idata) {
 			pkgName = idata.Name
 			importName = idata.Name
 
